@@ -8,6 +8,10 @@ G: TLC enumerates DocMutation (Props = {"C13"}): every mapping node of every bas
      InsertKey/casevariant (every known but absent key of a case-sensitive closed mapping in another letter case),
      RenameKey (the key of every entry in another letter case: a foreign key where keys are case-sensitive; the same
                 key - drift-only - where they are case-insensitive),
+     KindKey (keys not available in a node of this kind - call-only keys in a steps job, steps-only keys in a call job,
+              run-only keys in an action step and vice versa - in every value form incl. no value, first / middle / last),
+     EventKey (a webhook key not available for the event + another absent webhook key; the reference has the latter
+               only: a new `events` diagnostic must appear and every reference diagnostic must stay),
      DupKey (every entry, key in the same / UPPER / Mixed case, value copied, directly behind the entry or last),
      DropKey (every key whose removal leaves no mandatory alternative satisfied; also combined with a foreign key,
               and every pair of mandatory keys dropped at once - each of the two must be reported),
@@ -40,6 +44,8 @@ MISSING_CLASSES = ('missing-key', 'schedule-item')
 def target(v):
     at = v['exp']['at']
     p = doclib.pid(v['h']['path'])
+    if at in ('conflict', 'event'):
+        return ('new', 'key')
     if at == 'entrykey':
         return (doclib.pid(v['entry']), 'key')
     return {'key': ('new', 'key'), 'item': (p, 'node'), 'doc': ('doc', 'node'), 'parentkey': (p, 'key'), 'node': (p, 'node')}[at]
@@ -64,6 +70,33 @@ def judge(v, mo, ro):
                              % (v['exp']['named'], unnamed, [doclib.show(d) for d in miss])))
         elif not any(doclib.at_node(d, ident, role) for d in miss):
             drift.append('missing key %r of %s reported, but not at the %s' % (v['key'], doclib.site_str(v['h']['site']), v['exp']['at']))
+        return problems, drift
+    if mut == 'KindKey':
+        # a key that is not available in a node of this kind: key-conflict at the key, its value or a sibling key
+        sibs = {doclib.pid(v['h']['path'] + [i]) for i in range(1, v['n'] + 1)}
+        hit = [d for d in syn if d['cls'] == 'key-conflict' and
+               (doclib.inside(d, 'new') or any(a['id'] in sibs and a['role'] == 'key' for a in d['at']))]
+        if not hit:
+            text = ('key %r (%s form, inserted %s) is not available in a %s %s but no key conflict is reported (syntax-check: %s)'
+                    % (v['key'], v['form'], v['where'], v['kind'], v['h']['sec'], [doclib.show(d) for d in syn] or 'none'))
+            if v['exp']['soft']:
+                drift.append('key %r in a %s %s is not reported (documentation reading uncertain)' % (v['key'], v['kind'], v['h']['sec']))
+            else:
+                problems.append(('report', text))
+        return problems, drift
+    if mut == 'EventKey':
+        have = Counter(doclib.dkey(d) for d in mo['diags'])
+        want = Counter(doclib.dkey(d) for d in ro['diags'])
+        hook = doclib.pid(v['h']['path'])
+        fresh = [d for d in mo['diags'] if d['kind'] == 'events' and (have - want)[doclib.dkey(d)] > 0 and
+                 (doclib.at_node(d, hook, 'key') or doclib.at_node(d, 'new', 'key'))]
+        if not fresh:
+            problems.append(('report', 'key %r is not available for the %r event but no events diagnostic at the event or the key '
+                             'is added (diagnostics: %s)' % (v['key'], v['hook'], [doclib.show(d) for d in mo['diags']][:4])))
+        lost = want - have
+        if lost:
+            problems.append(('siblings', 'key %r hides the diagnostics of its sibling %r in the %r event: %s'
+                             % (v['key'], v['key2'], v['hook'], '; '.join('[%s] %s' % (k[0], k[1][:140]) for k in list(lost)[:3]))))
         return problems, drift
     gone = doclib.pid(v['entry']) if mut == 'RenameKey' else None      # the renamed entry is no longer what it was
     if mut == 'RenameKey' and v['exp']['same']:
@@ -201,7 +234,9 @@ def run(ck, tier):
     for p in plan[:1]:
         ck.sample({'site': doclib.site_str(p[0]['h']['site']), 'mutation': p[0]['h']['mut'], 'key': p[0]['key'],
                    'observed': [doclib.show(d) for d in runs[p[2]]['diags'][:3]]})
-    ck.assumptions += ['which mappings compare keys case-sensitively is taken from the schema table of DESIGN.md A.1 (Schema.tla), not '
+    ck.assumptions += ['which keys are unavailable in a call job / steps job / action step / run step and for which events is taken '
+                       'from the GitHub documentation as written down in Schema.tla (kinds, EventDeny); `services` in a call job is '
+                       'drift-only; only the events occurring in the base workflows are classified','which mappings compare keys case-sensitively is taken from the schema table of DESIGN.md A.1 (Schema.tla), not '
                        'from the code: in a case-sensitive closed mapping a known key in another letter case is a foreign key and '
                        'must be reported; that a case-insensitive mapping accepts it unchanged is drift-only','the fixed key sets, case rules and mandatory keys are those written down in spec/Schema.tla (A.1 of DESIGN.md, '
                        'cross-checked against parse.go and by the bases linting clean)',
